@@ -304,6 +304,34 @@ namespace bxdecay0 {
   {
     if (is_trace()) std::cerr << "[trace] bxdecay0::event_reader::_at_configure_: Entering...\n";
     _open_new_file_();
+    // Skip the events before the requested start index right now, so that has_next_event()
+    // reflects the requested window (it was true, and load_next_event threw, when the start
+    // index was beyond the end of the input stream):
+    while (not _terminated_ and _pimpl_->fin and _pimpl_->parsed_event_counter < _config_.start_event) {
+      std::ifstream & fin = *(_pimpl_->fin);
+      int evId = -1;
+      double evTime = 0.0;
+      std::string decayGenName;
+      int nbParticles = 0;
+      fin >> evId >> std::ws >> evTime >> std::ws >> decayGenName >> std::ws >> nbParticles >> std::ws;
+      for (int iPart = 0; fin and iPart < nbParticles; iPart++) {
+        int partCode;
+        double partTime, px, py, pz;
+        fin >> partCode >> std::ws >> partTime >> std::ws >> px >> std::ws >> py >> std::ws >> pz >> std::ws;
+      }
+      if (!fin) {
+        throw std::runtime_error("bxdecay0::event_reader::_at_configure_: Invalid/corrupted event format!");
+      }
+      _pimpl_->last_event_in_file_index++;
+      _pimpl_->parsed_event_counter++;
+      fin >> std::ws;
+      if (fin.eof()) {
+        _close_current_file_();
+        if (not is_terminated()) {
+          _open_new_file_();
+        }
+      }
+    }
     if (is_trace()) std::cerr << "[trace] bxdecay0::event_reader::_at_configure_: Exiting...\n";
     return;
   }
